@@ -5,6 +5,7 @@ import (
 	"errors"
 	"fmt"
 	"os"
+	"strconv"
 	"sync"
 
 	"github.com/getkin/kin-openapi/openapi3"
@@ -179,9 +180,94 @@ func runMode(schema *openapi3.Schema, v any, opts ...openapi3.SchemaValidationOp
 	return "A", nil
 }
 
+// The option sets of spec/Gen_C19O.tla (opts.ndjson, written by TLC): each a sequence of option names.
+type optSet struct {
+	Opts      []string `json:"opts"`
+	Base      []any    `json:"base"`
+	NoDetails bool     `json:"nodetails"`
+}
+
+var sharedOpts = sync.OnceValue(func() []optSet {
+	path := os.Getenv("VERIF_OPTS")
+	if path == "" {
+		return nil
+	}
+	raws, err := readCases(path)
+	if err != nil {
+		panic(err)
+	}
+	var res []optSet
+	for _, r := range raws {
+		var raw struct {
+			Opts      any  `json:"opts"`
+			Base      any  `json:"base"`
+			NoDetails bool `json:"nodetails"`
+		}
+		if err := json.Unmarshal(r, &raw); err != nil {
+			panic(err)
+		}
+		o := optSet{NoDetails: raw.NoDetails, Opts: []string{}, Base: append([]any{}, asSlice(raw.Base)...)}
+		for _, n := range asSlice(raw.Opts) {
+			o.Opts = append(o.Opts, n.(string))
+		}
+		res = append(res, o)
+	}
+	return res
+})
+
+// optsSelected: the option sets are run on every VERIF_OPTS_EVERY-th (schema, value) pair -- a seeded slice of the
+// product (schema x value x option set); which pairs is a function of the case index, the value index and the seed.
+var optsEvery = sync.OnceValue(func() int {
+	n, err := strconv.Atoi(os.Getenv("VERIF_OPTS_EVERY"))
+	if err != nil || n < 1 {
+		return 1
+	}
+	return n
+})
+
+func optsSelected(c *Case, i int) bool {
+	n := optsEvery()
+	return (c.Idx+i)%n == int(c.Seed%int64(n)+int64(n))%n
+}
+
+var reasonOnlyCustomizer = openapi3.SetSchemaErrorMessageCustomizer(func(e *openapi3.SchemaError) string {
+	if e.Reason == "" {
+		return "schema error"
+	}
+	return e.Reason
+})
+
+// realiseOpts: option names -> the library's options, in the order given.
+func realiseOpts(names []string) (opts []openapi3.SchemaValidationOption, directed bool) {
+	for _, n := range names {
+		switch n {
+		case "failfast":
+			opts = append(opts, openapi3.FailFast())
+		case "multi":
+			opts = append(opts, openapi3.MultiErrors())
+		case "asreq":
+			opts = append(opts, openapi3.VisitAsRequest(), openapi3.DefaultsSet(func() {}))
+			directed = true
+		case "asrep":
+			opts = append(opts, openapi3.VisitAsResponse(), openapi3.DefaultsSet(func() {}))
+			directed = true
+		case "formats":
+			opts = append(opts, openapi3.EnableFormatValidation())
+		case "nopattern":
+			opts = append(opts, openapi3.DisablePatternValidation())
+		case "custom":
+			opts = append(opts, reasonOnlyCustomizer)
+		default:
+			panic("harness: unknown option name " + n)
+		}
+	}
+	return
+}
+
 type c12Case struct {
-	S    any   `json:"s"`
-	Vals []any `json:"vals"`
+	S     any   `json:"s"`
+	Vals  []any `json:"vals"`
+	Share bool  `json:"share"` // repeated sub-schemas are shared components (harness/c01.go shareAbs)
 }
 
 var c12Formats sync.Once
@@ -217,7 +303,10 @@ func c12RunWith(c *Case, withText bool) []any {
 	var tc c12Case
 	c.Decode(&tc)
 	line := map[string]any{"case": c.Idx, "s": tc.S}
-	schema, _, err := loadSchema(tc.S)
+	if tc.Share {
+		line["share"] = true
+	}
+	schema, _, err := loadSchemaShared(tc.S, tc.Share)
 	if err != nil {
 		line["load"] = "error"
 		return []any{line}
@@ -234,7 +323,7 @@ func c12RunWith(c *Case, withText bool) []any {
 	}
 	custom := openapi3.SetSchemaErrorMessageCustomizer(func(e *openapi3.SchemaError) string { return "custom:" + e.SchemaField })
 	rs := []any{}
-	for _, v := range vals {
+	for vi, v := range vals {
 		r := map[string]any{}
 		var de, me error
 		// json.Number is what the request/response decoders feed to the validator
@@ -287,6 +376,52 @@ func c12RunWith(c *Case, withText bool) []any {
 		r["ed"], _ = runMode(schema, v.num, openapi3.EnableFormatValidation())
 		r["ef"], _ = runMode(schema, v.num, openapi3.EnableFormatValidation(), openapi3.FailFast())
 		r["em"], _ = runMode(schema, v.num, openapi3.EnableFormatValidation(), openapi3.MultiErrors())
+		if !withText && optsSelected(c, vi) {
+			// every option set of spec/Gen_C19O.tla; logged per base (the options that may change what is checked): the
+			// verdicts observed over all mode / customiser sequences with that base, each with the first sequence that gave it
+			type group struct {
+				base []any
+				vs   []any
+				by   []any
+			}
+			groups := map[string]*group{}
+			order := []string{}
+			for _, oset := range sharedOpts() {
+				opts, directed := realiseOpts(oset.Opts)
+				var val any = v.num
+				if directed {
+					val = fresh()
+				}
+				verd, _ := runMode(schema, val, opts...)
+				bk, _ := json.Marshal(oset.Base)
+				g := groups[string(bk)]
+				if g == nil {
+					g = &group{base: oset.Base}
+					groups[string(bk)] = g
+					order = append(order, string(bk))
+				}
+				known := false
+				for _, x := range g.vs {
+					known = known || x == verd
+				}
+				if !known {
+					names := []any{}
+					for _, n := range oset.Opts {
+						names = append(names, n)
+					}
+					g.vs = append(g.vs, verd)
+					g.by = append(g.by, names)
+				}
+			}
+			if len(order) > 0 {
+				xg := []any{}
+				for _, k := range order {
+					g := groups[k]
+					xg = append(xg, T{"base": g.base, "vs": g.vs, "by": g.by})
+				}
+				r["xg"] = xg
+			}
+		}
 		if !withText && r["d"] == "A" && r["m"] == "A" {
 			// nothing to report for an accepted value
 		} else {
@@ -330,6 +465,49 @@ func c12RunWith(c *Case, withText bool) []any {
 				r["tme"] = projectTopErrors(te, withText)
 			}
 			openapi3.SchemaErrorDetailsDisabled = true
+			// the option sets of spec/Gen_C19O.tla; runs that report the very same errors are logged once, with
+			// the list of option sets that produced them (no judgement here: identical observations are merged)
+			if (r["d"] != "A" || r["qd"] != "A" || r["pd"] != "A") && optsSelected(c, vi) {
+				byObs := map[string]int{}
+				xs := []any{}
+				for _, oset := range sharedOpts() {
+					opts, directed := realiseOpts(oset.Opts)
+					var val any = v.num
+					if directed {
+						val = fresh()
+					}
+					openapi3.SchemaErrorDetailsDisabled = oset.NoDetails
+					verd, xe := runMode(schema, val, opts...)
+					var errs []any
+					if verd == "P" {
+						errs = []any{T{"k": "panic", "reasons": []any{}, "text": []any{}}}
+					} else {
+						errs = projectTopErrors(xe, true)
+					}
+					openapi3.SchemaErrorDetailsDisabled = true
+					if len(errs) == 0 {
+						continue
+					}
+					names := []any{}
+					for _, n := range oset.Opts {
+						names = append(names, n)
+					}
+					if oset.NoDetails {
+						names = append(names, "nodetails")
+					}
+					key, _ := json.Marshal(errs)
+					if i, seen := byObs[string(key)]; seen {
+						x := xs[i].(T)
+						x["opts"] = append(x["opts"].([]any), names)
+					} else {
+						byObs[string(key)] = len(xs)
+						xs = append(xs, T{"opts": []any{names}, "errs": errs})
+					}
+				}
+				if len(xs) > 0 {
+					r["x"] = xs
+				}
+			}
 		}
 		rs = append(rs, r)
 	}
@@ -341,7 +519,11 @@ func init() {
 	abn := func(c *Case, kind string) []any {
 		var tc c12Case
 		c.Decode(&tc)
-		return []any{map[string]any{"case": c.Idx, "s": tc.S, "load": kind}}
+		line := map[string]any{"case": c.Idx, "s": tc.S, "load": kind}
+		if tc.Share {
+			line["share"] = true
+		}
+		return []any{line}
 	}
 	drivers["C12"] = &Driver{Run: func(c *Case) []any { return c12RunWith(c, false) }, Abnormal: abn}
 	drivers["C19"] = &Driver{Run: func(c *Case) []any {
